@@ -12,10 +12,10 @@ import (
 	"sort"
 	"strings"
 
-	cgen "github.com/google/wuffs/lang/verifc05"
 	"github.com/google/wuffs/lang/check"
 	"github.com/google/wuffs/lang/generate"
 	"github.com/google/wuffs/lang/parse"
+	cgen "github.com/google/wuffs/lang/verifc05"
 
 	a "github.com/google/wuffs/lang/ast"
 	t "github.com/google/wuffs/lang/token"
